@@ -4,7 +4,8 @@ from props import forest_common as fc
 
 THEOREMS = ['C20_tft_unshaped_exact', 'C20_tft_unshaped_perm', 'C20_tft_resolve_in', 'C20_is_ambiguous_single', 'C20_is_ambiguous_iff',
             'C20_visit_terminates', 'C20_visit_total', 'C20_on_cycle_exact', 'C20_cycle_events_sound',
-            'C20_loop_eq_rec', 'C20_example_tft', 'C20_example_cycle']
+            'C20_loop_eq_rec', 'C20_example_tft', 'C20_example_cycle', 'C20_graph_resolve_in_den',
+            'C20_graph_resolve_total', 'C20_example_graph_resolve']
 GEN_DEPS = ['ForestSortKey']
 RULE = ('(c) random grammars for the dynamic lexers with one to three %ignore literals of different lengths that are prefixes/'
         'suffixes of the grammar\'s own string terminals, all texts up to length 4, character-level tiling oracle; '
@@ -29,6 +30,7 @@ ASSUMPTIONS = ['with regexp terminals under the dynamic lexers, completeness of 
                'grammars without tree shaping for the derivation comparison (plain rule names, named terminals)',
                'streams (a) and (b) use string-literal terminals only']
 
+IMPORTS_G = 'From LV Require Import Cfg.Grammar Forest.ExplicitBuild Forest.GraphResolve Forest.GraphResolveCheck.'
 IMPORTS = ('From LV Require Import Base.Prelude Forest.Sppf Forest.Prio Forest.SppfCheck Forest.PrioCheck Forest.Tft '
            'Forest.TftCheck Forest.Visit Forest.VisitCheck.')
 MAX_UNFOLDED = 700
@@ -176,6 +178,21 @@ def walk_cases(ctx, root, p, w, out_cases, out_meta, cyclic, nontrivial, pick=No
                     ctx.violation('cyclic-result-not-a-derivation', dict(w, visitor=name), True,
                                   '%s returned a tree that is not a derivation of the input: %r' % (name, t))
                     break
+
+
+def graph_case(ctx, root, p, w, out_cases, out_meta, cyclic):
+    """ForestToParseTree(resolve) on the graph forest vs Forest/GraphResolve.v (cyclic forests included)"""
+    try:
+        case, res = fc.coq_graph_case(root, p)
+    except fc.Timeout:
+        ctx.violation('walk-timeout', dict(w, visitor='ForestToParseTree/resolve'), True,
+                      'ForestToParseTree(resolve_ambiguity=True).transform did not return within 20 s')
+        return
+    ctx.count('graph-resolve', key=(w.get('g'), w.get('text'), w.get('lexer')), nontrivial=cyclic, graph_cyclic=cyclic,
+              returned_tree=res is not None)
+    if len(case) < 60000:
+        out_cases.append(case)
+        out_meta.append(w)
 
 
 def oracle_acyclic(g, text, lexer):
@@ -344,6 +361,7 @@ def correspond(ctx):
     rng = ctx.rng
     tcases, tmeta = [], []
     vcases, vmeta = [], []
+    gcases, gmeta = [], []
     # ---- (a) acyclic: forest = derivations, TreeForestTransformer, is_ambiguous -------------------
     n_gram = ctx.scale(45, 250) * (3 if ctx.widen else 1)
     for gi in range(n_gram):
@@ -379,6 +397,8 @@ def correspond(ctx):
                     tmeta.append((w, msg))
                 if rng.random() < 0.15:
                     walk_cases(ctx, ob['root'], ob['p'], w, vcases, vmeta, False, nd > 1, rng)
+                if rng.random() < 0.3:
+                    graph_case(ctx, ob['root'], ob['p'], w, gcases, gmeta, False)
     import time; ctx.note('t_acyclic=%.1f' % (time.time()-ctx.t0))
     # ---- (c) dynamic lexers with %ignore terminals overlapping the grammar's terminals ----------------
     for w in EXOTIC:
@@ -449,6 +469,7 @@ def correspond(ctx):
             ncyc += 1
             ctx.count('cyclic', key=(g, text, lexer), nontrivial=True, lexer=lexer, nodes=min(len(nodes) // 20 * 20, 200))
             walk_cases(ctx, root, p, w, vcases, vmeta, True, True, rng if ncyc > 20 else None)
+            graph_case(ctx, root, p, w, gcases, gmeta, True)
             # the front ends themselves must return on cyclic forests
             for amb in ('resolve', 'explicit'):
                 if getattr(ctx, 'n_timeouts', 0) >= 3:
@@ -500,6 +521,17 @@ def correspond(ctx):
             what = TD.get(str(code).split('%')[0], str(code))
             ctx.violation('correspondence:' + what, dict(w, no_longer_checks='model vs lark (ignore stream): ' + what), False,
                           'model and lark disagree on %s (diag %s); the Python oracle accepts this case' % (what, code))
+    if not ctx.widen:
+        gcases, gmeta = subset(gcases, gmeta, ctx.scale(150, 1500))
+    bad, errs = ctx.coq_bad_indices('c20g', IMPORTS_G, 'gres_ok', gcases, chunk=50)
+    for e in errs:
+        ctx.violation('correspondence:coq-evaluation', {'no_longer_checks': 'c20 graph-resolve cases', 'detail': e}, False, e)
+    for i in bad[:6]:
+        code, _ = ctx.coq_eval('c20g_diag_%d' % i, IMPORTS_G, 'gres_diag %s' % gcases[i])
+        what = {'1': 'tree returned by ForestToParseTree(resolve) on the graph forest',
+                '2': 'children order is not a rearrangement of the packed children'}.get(str(code).split('%')[0], str(code))
+        ctx.violation('correspondence:graph-resolve ' + what, dict(gmeta[i], no_longer_checks='graph resolve: ' + what),
+                      False, 'model Forest/GraphResolve.v and lark disagree on %s' % what)
     bad, errs = ctx.coq_bad_indices('c20v', IMPORTS, 'visit_ok_raw', vcases, chunk=64)
     for e in errs:
         ctx.violation('correspondence:coq-evaluation', {'no_longer_checks': 'c20 walk cases', 'detail': e}, False, e)
